@@ -30,6 +30,18 @@ PROPS = {
         "assumptions": STD_ASSUME_PURE + ["rand's shuffle returns a permutation (any permutation is covered by the theorem)",
                                            "'being fetched from another peer' is read as the manager's own Reserved bookkeeping (its truthfulness is C12)"],
     },
+    "C14": {
+        "lean_modules": ["RdestModel.Props.C14"],
+        "cases": {"quick": 1500, "thorough": 40000},
+        "rule": "operation histories (5..80 ops) on the real Session through the hooks: add peer (up to 25 live), interested / not-interested, "
+                "bitfield (real RecvBitfield command, reply observed), kill, rotation = change_conn_state with generated rate vectors (ties "
+                "included, random vector order) and an admissible new_optimistic choice read from the implementation's own snapshot; after EVERY "
+                "op the full snapshot (am_choked, interested, optimistic per peer), for rotations also the sorted order and the broadcast "
+                "am_choked_map, are compared with the model; oracle T1 (slot bounds) on every snapshot, T2/T3 on every rotation; "
+                "distinct = distinct histories",
+        "assumptions": STD_ASSUME_PURE + ["broadcast channel never overflows (each connection task sees every SendOwnState), see DESIGN.md C11/C14",
+                                           "new_optimistic_peers returns at most MAX_OPTIMISTIC peers, each currently choked and interested (read off the code: choose() of that filtered list)"],
+    },
     "C07": {
         "lean_modules": ["RdestModel.Props.C07"],
         "cases": {"quick": 6000, "thorough": 200000},
